@@ -10,7 +10,9 @@ def run(ctx):
                 "operand tuples (extreme integers, self-referential arrays/procedures, aliased views, 65536-element "
                 "containers, every type) and the harness checks that the call returns without panic; "
                 "(b) size-parameterised recursion/growth shapes (PSShapes) run in child processes so that stack "
-                "exhaustion or absurd allocations are observed as process aborts. A violation is a panic, a process "
+                "exhaustion or absurd allocations are observed as process aborts; (c) every charstring token sequence up to "
+                "length 3/4 over an adversarial alphabet (T1Charstring is total), wrapped by the independent writer with "
+                "hostile lenIV values; (f) one byte replaced at every offset of every corpus file. A violation is a panic, a process "
                 "abort or a hang; any returned result or error value is fine.")
     ctx.assumptions = ["MaxOps is set as the readers set it (1e6); cumulative memory growth over many operations is out of scope"]
     # (a)
@@ -27,3 +29,14 @@ def run(ctx):
     s2 = ctx.vh_json("run-shapes", os.path.join(d, "shapes.ndjson"), timeout=3000)
     pscommon.absorb(ctx, s2, "vh run-shapes (child process per shape)", "PSShapes: returns")
     ctx.extra["shape_runs"] = s2["vectors"]
+    # (c) malformed charstrings, hostile lenIV (T1Charstring is total; MC_T1Font family hostile)
+    from checks import c06
+    vec = c06.t1_family(ctx, "hostile", invariants=("Emit", "Total"))
+    s3 = ctx.vh_json("replay-t1", "-isolate", vec, timeout=2400)
+    pscommon.absorb(ctx, s3, "vh replay-t1 (hostile charstrings, lenIV)", "T1Charstring!T1Run total / type1.Read returns")
+    ctx.extra["hostile_charstring_fonts"] = s3["vectors"]
+    # (f) structure-aware corruption of valid files
+    s4 = ctx.vh_json("corrupt", ctx.tier, ctx.seed, timeout=2400)
+    pscommon.absorb(ctx, s4, "vh corrupt", "readers are total")
+    ctx.extra["corrupted_files"] = s4["vectors"]
+    ctx.extra["corrupted_files_still_accepted"] = sum(s4["per_op_ok"].values())
